@@ -711,6 +711,13 @@ func (m *machine) conv(tDst, tSrc types.Type, x value) value {
 		return convConcrete(tDst, tSrc, x)
 	}
 	dk := basicKind(tDst)
+	if sv.tbl != nil {
+		if _, isBasic := tDst.Underlying().(*types.Basic); isBasic {
+			if r, _, ok := m.lift([]value{sv}, func(c []value) (value, bool) { return convConcrete(tDst, tSrc, c[0]), true }); ok {
+				return r
+			}
+		}
+	}
 	switch sv.s {
 	case sBool:
 		return sv
